@@ -18,30 +18,41 @@ import numpy
 from .. import core, terms as T, irtools, loopspace as LS, vfork, sched
 
 LEVEL = 'model_checking'
-RULE = ('(a) stop in 0..4 x {2,3} workers x all schedules with <=2 preemptions; (b) every loop program (families p1,p3,p4,tuples; thorough +p2) x all '
-        'schedules of 2 (thorough 3) virtual workers with <=2 (p1: quick 1) preemptions at statement granularity; (b\') real forked processes for '
-        'a few programs with <=1 (thorough 2) preemptions; (c) all (worker, iteration, fault kind) triples; (d) free-running smoke pass. '
+RULE = ('(a) parallel.range with stop in 0..4 x 2 (thorough also 3) workers x all schedules with <=2 preemptions (quick: <=1 for stop 2,3,4); '
+        '(b) every loop program (families p1,p3,p4,tuples; thorough +p2) x all schedules of 2 (thorough 3) virtual workers at statement '
+        'granularity with <=2 preemptions (quick: <=2 for single loops, tuples, every 4th nested loop and every 4th loop sum into a loop-shaped '
+        'array, <=1 for the other adjacent-loop and nested programs); (b\') real forked processes for three programs with <=1 (thorough 2) '
+        'preemptions; (c) all (worker, iteration, fault kind) triples; (d) free-running pass over every 32nd (thorough: every) program. '
         'states = distinct (program, schedule) executions, transitions = scheduled steps; non-trivial = schedules with >=1 preemption in which '
         'both workers claim at least one iteration')
 ASSUMPTIONS = ['the virtual fork shares exactly the arrays allocated by parallel.shempty and the multiprocessing.Lock objects (validated by (b\') against real forks)',
                'scheduling granularity: Python statements of the generated script / lines of parallel.range.__next__; races inside one numpy call are out of reach',
                'statement semantics are Python\'s own (each simple statement is executed by exec)']
 BUDGET_S = {'quick': 480, 'thorough': 6000}
-PROG_CHUNK = 40
+PROG_CHUNK = 25
 
 
 def shards(tier, seed):
     out = []
     for nw in ((2,) if tier == 'quick' else (2, 3)):
         for stop in range(5):
-            out.append({'part': 'a', 'workers': nw, 'stop': stop, 'bound': 2})
+            # every execution forks its workers and forks are a machine-wide bottleneck here (core.fork_token): quick explores two
+            # preemptions up to one iteration and one preemption above; thorough two everywhere, split over shards by first deviations
+            bound = 2 if tier == 'thorough' or stop <= 1 else 1
+            nsplit = 6 if tier == 'thorough' and stop else 1
+            for k in range(nsplit):
+                out.append({'part': 'a', 'workers': nw, 'stop': stop, 'bound': bound, 'split': [k, nsplit]})
     n = len(LS.programs(tier))
-    for lo in range(0, n, PROG_CHUNK):
-        out.append({'part': 'b', 'lo': lo, 'hi': min(n, lo + PROG_CHUNK)})
+    nb = -(-n // PROG_CHUNK)
+    for k in range(nb):   # strided: shard k takes programs k, k+nb, ... (the expensive families are spread over all shards)
+        out.append({'part': 'b', 'k': k, 'n': nb})
     for i in range(len(conformance_programs())):
-        out.append({'part': 'bprime', 'index': i, 'bound': 1 if tier == 'quick' else 2})
-    out.append({'part': 'c'})
-    out.append({'part': 'd'})
+        for k in range(1 if tier == 'quick' else 6):
+            out.append({'part': 'bprime', 'index': i, 'bound': 1 if tier == 'quick' else 2, 'split': [k, 1 if tier == 'quick' else 6]})
+    for k in range(2):
+        out.append({'part': 'c', 'k': k, 'n': 2})
+    for k in range(2):
+        out.append({'part': 'd', 'k': k, 'n': 2})
     return out
 
 
@@ -93,7 +104,7 @@ def run_range(spec, res, only_prefix=None):
         if f:
             res.violation('range:{}'.format(f.split(' ')[0]), '{} (workers={}, stop={})'.format(f, nw, stop), {'part': 'a', 'workers': nw, 'stop': stop, 'choices': ex.choices})
             return False
-    n = sched.explore(lambda p: range_execution(nw, stop, p), spec['bound'], on)
+    n = sched.explore(lambda p: range_execution(nw, stop, p), spec['bound'], on, part=tuple(spec['split']) if spec.get('split') else None, split_depth=min(2, spec['bound']))
     res.sample({'part': 'a', 'workers': nw, 'stop': stop, 'executions': n})
 
 
@@ -289,7 +300,7 @@ def run_conformance(spec, res, only_prefix=None):
         res.count('traces_validated_against_impl')
         if ex.preemptions and len(set(pat[0])) > 1:
             res.distinct('distinct_nontrivial', json.dumps(['bprime', spec['index'], ex.choices]))
-    n = sched.explore(lambda p: real_execution(prog, p)[0], spec['bound'], on)
+    n = sched.explore(lambda p: real_execution(prog, p)[0], spec['bound'], on, part=tuple(spec['split']) if spec.get('split') else None, split_depth=min(2, spec['bound']))
     res.sample({'part': 'bprime', 'program': LS.show(prog), 'real_executions': n, 'real_ownership_patterns': len(seen_patterns), 'interpreter_ownership_patterns': len(vm_patterns)})
 
 
@@ -417,7 +428,7 @@ def check_free(case):
             dom = dom.refined_by([0]) if case.get('refined') else dom
             targets = numpy.array([[.5, .5], [2.75, 1.5], [1., 1.], [0., 0.], [2.9, .1], [1.5, 1.99], [.25, .25]])
             ref = dom.locate(geom, targets, tol=1e-10).eval(geom)
-            with parallel.maxprocs(case['nprocs']):
+            with core.fork_token(), parallel.maxprocs(case['nprocs']):
                 got = dom.locate(geom, targets, tol=1e-10).eval(geom)
                 try:
                     dom.locate(geom, numpy.array([[.5, .5], [9., 9.], [1., 1.]]), tol=1e-10)
@@ -436,7 +447,7 @@ def check_free(case):
             serial = evaluable.compile(node)(env)
         except Exception:
             return None
-        with parallel.maxprocs(case['nprocs']):
+        with core.fork_token(), parallel.maxprocs(case['nprocs']):
             got = evaluable.compile(node)(env)
         if not _values_equal(got, serial):
             return 'maxprocs({}) gives {} instead of {}'.format(case['nprocs'], got, serial)
@@ -445,7 +456,7 @@ def check_free(case):
 
 def free_cases(tier):
     n = len(LS.programs('quick'))
-    step = 7 if tier == 'quick' else 1
+    step = 32 if tier == 'quick' else 1
     out = [{'what': 'program', 'index': i, 'nprocs': 3} for i in range(0, n, step)]
     out += [{'what': 'locate', 'nprocs': p, 'refined': r} for p in (2, 3) for r in (False, True)]
     return out
@@ -461,9 +472,18 @@ def run_shard(spec, tier, seed):
     elif spec['part'] == 'b':
         nworkers = 2 if tier == 'quick' else 3
         last = None
-        for fam, prog in LS.programs(tier)[spec['lo']:spec['hi']]:
+        progs = LS.programs(tier)
+        for g in range(spec['k'], len(progs), spec['n']):
+            fam, prog = progs[g]
             res.count('programs')
-            bound = 1 if (tier == 'quick' and fam == 'p1') else 2
+            # quick: two preemptions for single loops (incl. loop-dependent chunk sizes), tuples, every fourth nested loop and every fourth
+            # loop sum into a loop-shaped array; one preemption for the other adjacent-loop programs (two fork/join regions in sequence: preemptions
+            # in different regions are independent) and the other nested loops.  thorough: two everywhere, three workers.
+            sh = LS.show(prog)
+            if tier == 'thorough' or fam in ('p1', 'tuples') or g % 4 == 0 and (fam == 'p4' or 'ragged' in sh and 'loopsum' in sh):
+                bound = 2
+            else:
+                bound = 1
             fail = check_program_vm(prog, nworkers, bound, res)
             last = prog
             if fail:
@@ -474,10 +494,11 @@ def run_shard(spec, tier, seed):
     elif spec['part'] == 'bprime':
         run_conformance(spec, res)
     elif spec['part'] == 'c':
-        for case in fault_cases():
+        for case in fault_cases()[spec.get('k', 0)::spec.get('n', 1)]:
             res.count('evaluations'); res.count('states'); res.count('transitions'); res.count('traces_validated_against_impl')
             try:
-                fail = check_fault_isolated(case)
+                with core.fork_token():
+                    fail = check_fault_isolated(case)
             except Exception as e:
                 fail = 'harness: {!r}'.format(e)
             if fail and fail.startswith('vacuous'):
@@ -488,7 +509,7 @@ def run_shard(spec, tier, seed):
                 res.distinct('distinct_nontrivial', json.dumps(case))
         res.sample({'part': 'c', 'case': fault_cases()[0]})
     else:
-        for case in free_cases(tier):
+        for case in free_cases(tier)[spec.get('k', 0)::spec.get('n', 1)]:
             res.count('evaluations'); res.count('states'); res.count('transitions'); res.count('traces_validated_against_impl')
             try:
                 fail = check_free(case)
